@@ -395,6 +395,104 @@ pub fn search_opt(ctx: &Ctx, mode: Mode, name: &str, init: Vec<Bm>, max_layers: 
   json!({"search": name, "initial_states": n0, "states": tab.bms.len(), "layers": layer_info, "fixpoint_reached": fixpoint, "later_layers_pair_with_initial_states_only": initial_partner_only})
 }
 
+
+// ---------------------------------------------------------------------------------------------
+// size sweep: every operand size 1..=N of a few operand shapes (a threshold, chunk size or skip
+// length hidden in an operator shows at one specific count only)
+// ---------------------------------------------------------------------------------------------
+
+const SW_DC: u8 = 3; // depth of the coarse cells
+const SW_DF: u8 = 10; // depth of the fine cells
+const SW_C: u64 = 7 * 64 + 37; // a generic depth-3 cell (base cell 7)
+
+fn sw_first(c: u64) -> u64 {
+  c << (2 * (SW_DF - SW_DC) as u32)
+}
+
+/// The operand pairs of size n.
+fn sweep_pairs(n: u64, partial: bool) -> Vec<(&'static str, Bm, Bm)> {
+  let full = |k: u64| !partial || k % 3 != 1;
+  let cf = !partial; // flag of the coarse cells in the flagged variant
+  let fine = |c: u64, n: u64, stride: u64, off: u64| -> Vec<Entry> { (0..n).map(|k| (SW_DF, sw_first(c) + stride * k + off, full(k))).collect() };
+  let mut v = vec![];
+  // F1: one coarse cell against n fine cells inside it + one fine cell after it
+  let mut b = fine(SW_C, n, 3, 1);
+  b.push((SW_DF, sw_first(SW_C + 1) + 5, true));
+  v.push(("contained-run", Bm::new(SW_DC, vec![(SW_DC, SW_C, true)]), Bm::new(SW_DF, b.clone())));
+  if partial {
+    v.push(("contained-run-partial-coarse", Bm::new(SW_DC, vec![(SW_DC, SW_C, false)]), Bm::new(SW_DF, b.clone())));
+  }
+  // F2: same depth_max, cells before and after on both sides
+  let mut a2 = vec![(SW_DF, sw_first(SW_C - 1) + 2, true), (SW_DC, SW_C, cf || true), (SW_DF, sw_first(SW_C + 2) + 9, full(1))];
+  a2.sort_by_key(|e| e.1 << (2 * (SW_DF - e.0) as u32));
+  let mut b2 = vec![(SW_DF, sw_first(SW_C - 1) + 7, true)];
+  b2.extend(fine(SW_C, n, 3, 1));
+  b2.push((SW_DF, sw_first(SW_C + 1) + 5, true));
+  b2.push((SW_DF, sw_first(SW_C + 3) + 1, true));
+  v.push(("contained-run-same-depth-max", Bm::new(SW_DF, a2), Bm::new(SW_DF, b2)));
+  // F3: two interleaved runs of the same level
+  let mut b3 = fine(SW_C, n, 4, 2);
+  b3.push((SW_DF, sw_first(SW_C + 1) + 5, true));
+  v.push(("interleaved-runs", Bm::new(SW_DF, fine(SW_C, n, 4, 0)), Bm::new(SW_DF, b3)));
+  // F4: two coarse cells, n fine cells in the first, 7 in the second, one after
+  let mut b4 = fine(SW_C, n, 3, 1);
+  b4.extend(fine(SW_C + 1, 7, 5, 2));
+  b4.push((SW_DF, sw_first(SW_C + 2), true));
+  v.push(("two-coarse-cells", Bm::new(SW_DC, vec![(SW_DC, SW_C, true), (SW_DC, SW_C + 1, cf)]), Bm::new(SW_DF, b4)));
+  // F5: identical runs and runs shifted by one cell (equal / adjacent entries)
+  v.push(("identical-runs", Bm::new(SW_DF, fine(SW_C, n, 3, 1)), Bm::new(SW_DF, fine(SW_C, n, 3, 1))));
+  v.push(("adjacent-runs", Bm::new(SW_DF, fine(SW_C, n, 3, 1)), Bm::new(SW_DF, fine(SW_C, n, 3, 2))));
+  // F6: a shallower ancestor (depth 1) against the run, different depth_max
+  let mut b6 = fine(SW_C, n, 3, 1);
+  b6.push((SW_DC, SW_C + 64, true));
+  v.push(("ancestor-depth-1", Bm::new(1, vec![(1, SW_C >> 4, true)]), Bm::new(SW_DF, b6)));
+  v
+}
+
+pub fn size_sweep(ctx: &Ctx, mode: Mode, total: &mut Part) -> Value {
+  let nmax: u64 = if ctx.quick() { 520 } else { 4200 };
+  let partial = mode != Mode::Moc;
+  let chunk = 8u64;
+  let njobs = ((nmax + chunk - 1) / chunk) as usize;
+  let part = par_jobs(njobs, |j| {
+    let mut part = Part::new();
+    if ctx.over_budget() {
+      part.caps.push(format!("wall budget {}s reached in the size sweep", ctx.budget_s));
+      return part;
+    }
+    for n in (j as u64 * chunk + 1)..=((j as u64 + 1) * chunk).min(nmax) {
+      for (name, a, b) in sweep_pairs(n, partial) {
+        let (ai, bi) = (a.to_impl(), b.to_impl());
+        let (am, bm) = match (a.to_map(), b.to_map()) {
+          (Ok(x), Ok(y)) => (x, y),
+          (x, y) => panic!("oracle: malformed sweep operand {} n={} {:?} {:?}", name, n, x.err(), y.err()),
+        };
+        part.stratum(&format!("size-sweep:{}", name), 2, 0);
+        for (x, xi, xm, y, yi, ym) in [(&a, &ai, &am, &b, &bi, &bm), (&b, &bi, &bm, &a, &ai, &am)] {
+          for op in BIN_OPS {
+            part.stratum(&format!("size-sweep:{}", name), 0, 1);
+            let (out, v) = transition(mode, op, x, xi, xm, Some((y, yi, ym)), &mut part);
+            if let Some(o) = out {
+              part.outcome(hash64(&[o.entries.len() as u64, o.depth_max as u64, o.entries.first().map(|e| e.1).unwrap_or(0), o.entries.last().map(|e| e.1).unwrap_or(0)]));
+            }
+            if let Some(v) = v {
+              part.viol(v);
+            }
+          }
+          part.stratum(&format!("size-sweep:{}", name), 0, 1);
+          if let (_, Some(v)) = transition(mode, Op::Not, x, xi, xm, None, &mut part) {
+            part.viol(v);
+          }
+        }
+      }
+    }
+    part
+  });
+  total.merge(part);
+  json!({"search": "size-sweep", "operand_sizes": format!("1..={}", nmax), "shapes": sweep_pairs(1, partial).iter().map(|s| s.0).collect::<Vec<_>>(),
+    "transitions_per_pair": "and, or, xor in both operand orders, not of each operand"})
+}
+
 pub fn specs(mode: Mode, quick: bool) -> Vec<(UniverseSpec, usize)> {
   let partial = mode != Mode::Moc;
   let mut v = vec![];
@@ -437,6 +535,7 @@ pub fn run(ctx: &Ctx, mode: Mode) -> i32 {
   let cov = coverage_operands(mode, ctx.quick());
   let info = search(ctx, mode, "coverage-sized-operands", cov, 1, &mut total);
   searches.push(info);
+  searches.push(size_sweep(ctx, mode, &mut total));
   let mut extra = Map::new();
   extra.insert("searches".into(), json!(searches));
   let what = match mode {
